@@ -155,7 +155,8 @@ def burst_task(task, wdir, res):
     import random
     rng = random.Random(task["seed"])
     shards = task["shards"]
-    cfg = dict(shard_count=shards, event_per_zone=64, fill_factor=100, segments_per_merge=2)
+    # memtable capacity above the burst size: no auto-flush runs while the reads are issued (reads during a flush are C03's subject)
+    cfg = dict(shard_count=shards, event_per_zone=64, fill_factor=200, segments_per_merge=2)
     res.count("tasks"); res.count("burst_histories")
     lt = Lifetimes(wdir, **cfg)
     witness = {"seed": task["seed"], "config": cfg, "mode": "burst", "n": task["n"]}
@@ -190,7 +191,7 @@ def burst_task(task, wdir, res):
             k += 1
             must_ok(node.cmd(f'STORE ev FOR {c} PAYLOAD {{"k":{k}}}'), "store")
             stored[c].append(k)
-        node.sync()
+        node.syncflush()
         rep = node.cmd("QUERY ev", timeout=120)
         res.evaluations += 1
         rows = rep.dicts() if rep.ok and rep.rows is not None else []
